@@ -4,7 +4,8 @@ Coq term of Model/PyScope.v, and a few static helpers used by the monitors.
 expr: ['none'] ['bool',b] ['int',n] ['str',s] ['name',x] ['bin',op,a,b] (op: add|eq|lt)
       ['list',[e..]] ['lam',[ps],body,[args]] ['comp',elt,[[x,it]..]] ['walrus',x,e]
       ['call',f,[args]] ['attr',e,a] ['append',l,x]
-stmt: ['assign',x,e] ['aug',x,e] ['import',a.b.c] ['importas',a.b.c,m] ['from',a.b,n,a] ['def',f,[ps],body]
+stmt: ['assign',x,e] ['aug',x,e] ['import',a.b.c] ['importas',a.b.c,m] ['from',a.b,n,a] ['fromn',a.b,[[n,a]..]]
+      ['def',f,[ps],body]
       ['class',c,[[a,e]..]] ['save',[names],[[k,e]..]] ['expr',e] ['del',x]
 value (context / heap items): None | bool | int | str | {'ref': i}   (i = index into case['heap'])
 """
@@ -67,6 +68,8 @@ def render_stmt(s):
         return f'import {s[1]} as {s[2]}'
     if t == 'from':
         return f'from {s[1]} import {s[2]}' + (f' as {s[3]}' if s[3] != s[2] else '')
+    if t == 'fromn':
+        return f'from {s[1]} import ' + ', '.join(n + (f' as {a}' if a != n else '') for n, a in s[2])
     if t == 'def':
         return f'def {s[1]}({", ".join(s[2])}): return {render(s[3])}'
     if t == 'class':
@@ -138,6 +141,8 @@ def coq_stmt(s):
         return f'(SImportAs {coq_str(s[1])} {coq_str(s[2])})'
     if t == 'from':
         return f'(SFrom {coq_str(s[1])} {coq_str(s[2])} {coq_str(s[3])})'
+    if t == 'fromn':
+        return f'(SFromN {coq_str(s[1])} ' + coq_list([f'({coq_str(n)}, {coq_str(a)})' for n, a in s[2]]) + ')'
     if t == 'def':
         return f'(SDef {coq_str(s[1])} {coq_list([coq_str(p) for p in s[2]])} {coq_expr(s[3])})'
     if t == 'class':
@@ -315,6 +320,8 @@ def block_names(block):
             imported.add(s[2])
         elif t == 'from':
             imported.add(s[3])
+        elif t == 'fromn':
+            imported |= {a for _, a in s[2]}
         elif t == 'def':
             defs.add(s[1])
         elif t == 'class':
@@ -342,18 +349,19 @@ STD_MODS = [
     ['urllib.parse', [['quote', {'nat': 'urllib.parse.quote'}]]],
     ['xml', []],
     ['xml.dom', [['XHTML_NAMESPACE', 'http://www.w3.org/1999/xhtml']]],
-    ['xml.dom.minidom', [['parseString', {'nat': 'xml.dom.minidom.parseString'}]]],
+    ['xml.dom.minidom', [['parseString', {'nat': 'xml.dom.minidom.parseString'}], ['parse', {'nat': 'xml.dom.minidom.parse'}]]],
 ]
 
 
 def pkg_files(P):
     """the throw-away package a case may import: relative path -> source"""
-    return {f'{P}/__init__.py': 'TOP = 1\n', f'{P}/other.py': "NAME = 'other'\n",
-            f'{P}/sub/__init__.py': 'SUBC = 2\n', f'{P}/sub/mod.py': "CONST = 40\nWORD = 'leaf'\n"}
+    return {f'{P}/__init__.py': 'TOP = 1\nONLY = 11\n', f'{P}/other.py': "NAME = 'other'\n",
+            f'{P}/sub/__init__.py': "SUBC = 2\nTOP = 'sub-top'\n", f'{P}/sub/mod.py': "CONST = 40\nWORD = 'leaf'\n"}
 
 
 def pkg_mods(P):
-    return [[P, [['TOP', 1]]], [f'{P}.other', [['NAME', 'other']]], [f'{P}.sub', [['SUBC', 2]]],
+    return [[P, [['TOP', 1], ['ONLY', 11]]], [f'{P}.other', [['NAME', 'other']]],
+            [f'{P}.sub', [['SUBC', 2], ['TOP', 'sub-top']]],
             [f'{P}.sub.mod', [['CONST', 40], ['WORD', 'leaf']]]]
 
 
@@ -372,4 +380,16 @@ def stmt_binding_name(s):
         return s[2]
     if s[0] == 'from':
         return s[3]
+    if s[0] == 'fromn':
+        return s[2][0][1]
     return None
+
+
+def stmt_binding_names(s):
+    if s[0] == 'fromn':
+        return [a for _, a in s[2]]
+    n = stmt_binding_name(s)
+    return [] if n is None else [n]
+
+
+IMPORT_KINDS = ('import', 'importas', 'from', 'fromn')
